@@ -192,6 +192,9 @@ func c15(args []string) int {
 	rng := hxlib.NewRng(c.seed)
 	out := hxlib.NewOut(c.out)
 	defer out.Close()
+	if c.extra == "live" {
+		return c15Live(c, rng, out)
+	}
 
 	sampleEvery := 1500
 	nRandom := 100000
